@@ -574,7 +574,7 @@ class C17:
                 exp[f(o_)] = exp.get(f(o_), 0.0) + v
             keys = sorted(exp)
             if r["outputs"] != [list(t) for t in keys]:
-                return f"{what}: outputs {r['outputs']} != images {keys}"
+                return f"{what}: outputs {r['outputs']} != images {[list(t) for t in keys]}"
             if not _close(r["items"], [[list(t), exp[t]] for t in keys]):
                 return f"{what}: mapped counts {r['items']} != {[[list(t), exp[t]] for t in keys]}"
             if not _close(r["get"], [{"ok": exp[t]} for t in keys]):
